@@ -403,3 +403,42 @@ def find_nodes(tree, name):
         for c in tree[1]:
             out += find_nodes(c, name)
     return out
+
+
+# --------------------------------------------------------------------------- parser-source facts (srcfacts)
+
+def consumers(S):
+    """name -> fn facts of the pest_consume consumers, with two source-level normalisations so that extracting a helper
+    does not hide anything from a rule: (1) a consumer that merely delegates to a local function containing the
+    `match_nodes!` takes over that function's arms; (2) calls of local zero-argument functions whose body is one
+    expression (`zero_gbp()`) are replaced by that expression inside the struct literals of every arm."""
+    import copy
+    import re as _re
+    fns = {}
+    for f in S["rust"]:
+        for fn in f.get("fns", []):
+            if fn["name"] not in fns or fn.get("impl"):
+                fns[fn["name"]] = fn
+    consts = {n: fn["tail"] for n, fn in fns.items() if fn.get("nargs") == 0 and fn.get("tail")}
+
+    def inline(txt):
+        def rep(m):
+            return consts.get(m.group(1), m.group(0)) if m.group(1) in consts else m.group(0)
+        return _re.sub(r"\b(?:Self\s*::\s*)?(\w+)\s*\(\s*\)", rep, txt)
+    out = {}
+    for name, fn in fns.items():
+        fn = copy.deepcopy(fn)
+        if not fn["match_nodes"] and not fn["rule_matches"]:
+            for c in fn.get("calls", []):
+                h = fns.get(c.split("::")[-1])
+                if h is not None and h["name"] != name and h["match_nodes"] and h.get("nargs", 0) >= 1:
+                    fn["match_nodes"] = copy.deepcopy(h["match_nodes"])
+                    fn["delegated_to"] = h["name"]
+                    break
+        for m in fn["match_nodes"]:
+            for a in m["arms"]:
+                a["body"] = inline(a["body"])
+                for st in a["structs"]:
+                    st["fields"] = {k: inline(v) for k, v in st["fields"].items()}
+        out[name] = fn
+    return out
